@@ -344,6 +344,28 @@ func fillDefaultRoute(fatal failf, st *verifkit.Stats, spec *gen.Type) {
 	}
 }
 
+// interfere decodes a type with the same tag texts as spec through an unmarshaler with another
+// canonical key function (result not judged; a panic is a violation by itself): the verdict of the
+// judged call that follows must not depend on it.
+func interfere(t *rapid.T, st *verifkit.Stats, spec *gen.Type) {
+	iv := gen.GenInterference(t, spec)
+	var opts []mapping.UnmarshalOption
+	if iv.Canon != nil {
+		opts = append(opts, mapping.WithCanonicalKeyFunc(iv.Canon))
+	}
+	target := reflect.New(iv.Twin.RType())
+	func() {
+		defer func() {
+			if p := recover(); p != nil {
+				t.Fatalf("C08 (no input makes the unmarshaller panic) VIOLATED: panic %v\n  type: %s\n  doc: %s\n  canonical key function: %s",
+					p, iv.Twin, gen.RenderJSON(iv.Doc), iv.CanonName)
+			}
+		}()
+		_ = mapping.NewUnmarshaler("json", opts...).Unmarshal(iv.Doc, target.Interface())
+	}()
+	st.Class("interference:" + iv.CanonName)
+}
+
 func TestVerifC08Json(t *testing.T) {
 	logx.Disable()
 	st := verifkit.New("json")
@@ -361,6 +383,9 @@ func TestVerifC08Json(t *testing.T) {
 		for i := 0; i < n; i++ {
 			in := gen.GenInput(t, spec, drawMode(t))
 			countCase(st, spec, in)
+			if rapid.IntRange(0, 2).Draw(t, "interfere") == 0 {
+				interfere(t, st, spec)
+			}
 			jsonRoutes(t.Fatalf, st, spec, in, rapid.IntRange(0, 3).Draw(t, "recase"), dir,
 				rapid.IntRange(0, 7).Draw(t, "viaFile"))
 		}
@@ -391,6 +416,9 @@ func TestVerifC08StrMap(t *testing.T) {
 		for i := 0; i < n; i++ {
 			in := gen.GenInput(t, spec, drawMode(t))
 			countCase(st, spec, in)
+			if rapid.IntRange(0, 2).Draw(t, "interfere") == 0 {
+				interfere(t, st, spec)
+			}
 			_, norm := gen.ParamMap(key, in.Docs[key])
 			judge(t.Fatalf, st, spec, in, key, map[string]map[string]any{key: norm}, true,
 				func() (func(any) error, []any) {
